@@ -566,6 +566,11 @@ func (r *RefFS) Apply(o Op) ExpRes {
 		if !ok {
 			return ExpRes{Class: "nohandle"}
 		}
+		if cur, cls := r.walk(h.path); cls != "" || cur != h.n {
+			// the entry was removed (and possibly replaced) while the handle is open:
+			// inode-bound and path-bound filesystems report different attributes
+			return ExpRes{Class: "any"}
+		}
 		in := r.infoOf(path.Base(h.path), h.n)
 		in.Size = int64(len(r.view(h)))
 		return ExpRes{Class: "ok", Info: in, SizeOK: h.n.kind == "file" && !h.unknown && !(!h.hasBuf && h.n.unknown), MtimeOK: h.n.mtimeOK && !h.hasBuf}
